@@ -533,6 +533,7 @@ class Machine:
         self.bvn = 0
         self.trace = []
         self.ints = set()                 # atoms read through an integer-typed lvalue
+        self.preconds = []                # conditions under which the routine does not throw
         self.allow_break = False          # a `break` ends the block being rewritten (case bodies of a switch)
         self.split = False                # False | 'writes' (split where a branch wrote memory or returned) | 'all'
 
@@ -669,6 +670,14 @@ class Machine:
             self.assume(s2, b_not(c))
             r1 = self.stmt(fn, n['then'], s1, rest)
             r2 = self.stmt(fn, n['else'], s2, rest) if n.get('else') else FALL
+            # a branch that throws is a precondition: the normal form describes the non-throwing executions
+            if r1 == ('throw',) or r2 == ('throw',):
+                keep, r = (s2, r2) if r1 == ('throw',) else (s1, r1)
+                if r == ('throw',):
+                    return r
+                self.preconds.append(b_not(c) if r1 == ('throw',) else c)
+                st['env'], st['heap'], st['facts'] = keep['env'], keep['heap'], keep.get('facts', [])
+                return r
             h0 = len(st['heap'])
             force = self.can_split() and (self.split == 'all' or len(s1['heap']) != h0 or len(s2['heap']) != h0 or
                                           r1 is not FALL or r2 is not FALL)
@@ -703,6 +712,9 @@ class Machine:
         if k in ('WhileStmt', 'DoStmt', 'SwitchStmt', 'CXXForRangeStmt', 'CXXTryStmt', 'BreakStmt', 'ContinueStmt', 'GotoStmt'):
             raise Unsupported('%s at %s' % (k, fn.where(n)))
         # expression statement
+        x = fn.strip(sid)
+        if x is not None and x['k'] == 'CXXThrowExpr':
+            return ('throw',)
         self.ev(fn, sid, st)
         return FALL
 
@@ -860,7 +872,24 @@ class Machine:
                 continue
             term = new - Poly.atom(('lc', v))
             if term.mentions(is_lc):
-                raise Unsupported('loop-carried variable is not an accumulator at ' + fn.where(n))
+                # multiplicative accumulator:  acc = acc * factor
+                lcv = ('lc', v)
+                fac = None
+                if all(dict(m).get(lcv) == 1 for m in new.t) and new.t:
+                    fac = Poly({tuple(x for x in m if x[0] != lcv): c for m, c in new.t.items()})
+                if fac is None or fac.mentions(is_lc):
+                    raise Unsupported('loop-carried variable is not an accumulator at ' + fn.where(n))
+                if fac.mentions(lambda a: a == bv):
+                    raise Unsupported('product over an index-dependent factor at ' + fn.where(n))
+                cnt = hi - lo
+                if cnt.is_const() and cnt.cval().denominator == 1 and 0 <= cnt.cval() <= 16:
+                    p = Poly.const(1)
+                    for _ in range(int(cnt.cval())):
+                        p = p * fac
+                    st['env'][v] = old * p
+                else:
+                    st['env'][v] = old * Poly.atom(('app', 'pow', fac.key(), cnt.key()))
+                continue
             st['env'][v] = old + self.summ(bv, lo, hi, term)
         # stores
         written = [k for k, v, q in s['heap'][h0:] if isinstance(k, tuple) and k and k[0] == 'I']
@@ -979,8 +1008,11 @@ class Machine:
             op = n['op'][:-1]
             lv = self.ev(fn, n['ch'][0], st)
             a = self.num(self.load(lv, st))
-            b = self.num(self.loadv(self.ev(fn, n['ch'][1], st), st))
-            v = self.arith(op, a, b)
+            b = self.num(self.load(self.loadv(self.ev(fn, n['ch'][1], st), st), st))
+            if op in ('/', '%') and is_int(n.get('ty')):
+                v = Poly.atom(('app', 'idiv' if op == '/' else 'imod', a.key(), b.key()))
+            else:
+                v = self.arith(op, a, b)
             self.store(lv, v, st)
             return lv
         if k == 'ConditionalOperator':
@@ -1151,6 +1183,12 @@ class Machine:
             return cmp0('ne0', a - b, self.ctx)
         if isinstance(a, tuple) and a and a[0] == 'P' and op in ('+', '-'):
             return ('P', a[1], self.arith(op, a[2], self.num(b)))
+        if op in ('/', '%') and is_int(n.get('ty')):
+            a, b = self.num(a), self.num(b)
+            if a.is_const() and b.is_const() and b.cval() != 0:
+                q = int(a.cval() / b.cval())          # C++ truncates toward zero
+                return Poly.const(q if op == '/' else a.cval() - q * b.cval())
+            return Poly.atom(('app', 'idiv' if op == '/' else 'imod', a.key(), b.key()))
         return self.arith(op, self.num(a), self.num(b))
 
     # -- calls -------------------------------------------------------------------------------------------------------------
@@ -1251,6 +1289,8 @@ class Machine:
             return self.app(short, [self.num(a) for a in argv])
         if callee.startswith('std::numeric_limits'):
             return Poly.atom(('app', callee))
+        if callee.startswith('boost::math::constants::') and not ch:
+            return Poly.atom(('g', 'boost::math::double_constants::' + short))
         if callee in ('std::abs', 'std::fabs'):
             return self.app('fabs', [self.num(a) for a in argv])
         if short == 'copyState' and len(argv) == 2 and all(isinstance(a, tuple) for a in argv):
